@@ -25,7 +25,9 @@ Fixpoint regroup {A} (xs : list A) (mults : list nat) : list (list A) :=
 
 Definition combine_bitstrings {A} (all : list (list A)) (mults : list Z) : option (list (list A)) :=
   if Z.eqb (Z.of_nat (List.length all)) (zsum mults)
-  then Some (map (@List.concat A) (regroup all (map Z.to_nat mults)))
+  then if forallb (fun k => 0 <=? k) mults
+       then Some (map (@List.concat A) (regroup all (map Z.to_nat mults)))
+       else None                               (* islice(it, k) with k < 0: ValueError *)
   else None.                                   (* ValueError *)
 
 (* counts dictionaries in insertion order *)
